@@ -257,6 +257,12 @@ def one_cooler(ctx, cid, rng, idx):
         if enc == "enum":
             c.check([names[i] for i in raw_ids.tolist()] == T["bins"]["chrom"].tolist(), "convert_enum-false-wrong",
                     "bins(convert_enum=False)['chrom'] are not the integer codes")
+        dd = clr.pixels(as_dict=True)[1:4] if len(P) >= 4 else None
+        if dd is not None:
+            c.check(isinstance(dd, dict) and dd["bin1_id"].tolist() == T["pixels"]["bin1_id"][1:4].tolist()
+                    and dd["count"].tolist() == T["pixels"]["count"][1:4].tolist(), "as_dict-wrong-rows",
+                    "pixels(as_dict=True)[1:4] does not return the stored rows 1..3")
+            c.feature("selector:as_dict")
         # pixels(join=True) consistent with the bin table
         if len(P):
             c.feature("pixels-join")
